@@ -166,7 +166,18 @@ fn check_case(name: &str, aliases: &[String], tuple: &[&str], ctx_kind: usize, s
     // collections (the returned one, or working collections a script fails to release on an error
     // path) are not constrained by the statement; they are counted for information only.
     let new: Vec<&String> = after_handles.keys().filter(|k| !before_handles.contains_key(*k)).collect();
-    if !tuple.is_empty() {
+    if tuple.is_empty() {
+        // no arguments: nothing may be allocated for passing them. A new empty list that is not the
+        // returned collection can only be such a temporary.
+        if let Some(k) = new.iter().find(|k| after_handles.get(**k) == Some(&SV::L(vec![])) && out.as_deref() != Some(k.as_str())) {
+            if ctx_kind != 3 && ctx_kind != 4 {
+                return Err((
+                    format!("argument-array-left:{}", name),
+                    format!("{} without arguments in {}: an empty temporary array {} was left behind", alias, CONTEXTS[ctx_kind], k),
+                ));
+            }
+        }
+    } else {
         let arg_list = SV::L(tuple.iter().map(|v| SV::S(resolve(v))).collect());
         if let Some(k) = new.iter().find(|k| after_handles.get(**k) == Some(&arg_list)) {
             return Err((
